@@ -10,6 +10,7 @@
 import MosVerif.Model.Retry
 import MosVerif.Lemmas.RetryLoop
 import MosVerif.Lemmas.RetryPipelineLink
+import MosVerif.Lemmas.TranslatedC14
 import MosVerif.Generated.Facts
 namespace MosVerif.C14
 open MosVerif.Retry
@@ -28,9 +29,35 @@ theorem exchange_eq_loop (k : Kind) (hk : k ≠ .doh) (o : Oracle) :
 
 theorem eff_doh (o : Oracle) : eff .doh o = o := rfl
 
-/-- within the retry budget minus one the pool IS consulted: the attempt is the oracle's -/
-theorem eff_early (k : Kind) (o : Oracle) (i : Nat) (h : i ≤ 5) : eff k o i = o i := by
-  cases k <;> simp [eff, reuseEff, h]
+/-- pipeline / reuse: within the retry budget minus one the pool IS consulted: the attempt is the
+    oracle's -/
+theorem eff_early (k : Kind) (hq : k ≠ .quic) (o : Oracle) (i : Nat) (h : i ≤ 5) : eff k o i = o i := by
+  cases k <;> simp [eff, reuseEff, h] at hq ⊢
+
+/-- quic: an attempt is the oracle's unless the previous one ended with a connection-level error
+    (`forgetConn`), in which case it is a dial -/
+theorem eff_quic (o : Oracle) (i : Nat) :
+    eff .quic o (i + 1) = if (eff .quic o i).connErr then forcedDial (o (i + 1)) else o (i + 1) := rfl
+
+theorem eff_quic_zero (o : Oracle) : eff .quic o 0 = o 0 := rfl
+
+/-- quic without connection-level errors among the first `i` attempts: the oracle's attempts -/
+theorem eff_quic_plain (o : Oracle) (i : Nat) (h : ∀ j, j < i → (o j).connErr = false) :
+    eff .quic o i = o i := by
+  induction i with
+  | zero => rfl
+  | succ n ih =>
+    have hn : eff .quic o n = o n := ih (fun j hj => h j (by omega))
+    rw [eff_quic, hn, h n (by omega)]
+    rfl
+
+/-- the attempt is the oracle's when the pool is consulted (index ≤ 5) and, for quic, no earlier
+    attempt was a connection-level failure -/
+theorem eff_plain (k : Kind) (o : Oracle) (i : Nat) (h : i ≤ 5)
+    (hq : k = .quic → ∀ j, j < i → (o j).connErr = false) : eff k o i = o i := by
+  by_cases hk : k = .quic
+  · subst hk; exact eff_quic_plain o i (hq rfl)
+  · exact eff_early k hk o i h
 
 /-! ### ★ bounded, total -/
 
@@ -46,7 +73,7 @@ theorem attempts_bounded_pipeline (o : Oracle) : (pipelineLoop o 0 0).n ≤ 6 :=
 /-- ★ connection-reuse transports (TCP, DoT): at most 7 attempts (`retry <= 5`) -/
 theorem attempts_bounded_reuse (o : Oracle) : (reuseLoop o 0 0).n ≤ 7 := attempts_bounded .reuse o
 /-- ★ DoQ: at most 6 attempts -/
-theorem attempts_bounded_quic (o : Oracle) : (quicLoop o 0 0).n ≤ 6 := attempts_bounded .quic o
+theorem attempts_bounded_quic (o : Oracle) : (quicLoop o 0 0 false).n ≤ 6 := attempts_bounded .quic o
 /-- DoH: exactly one round trip per exchange (no loop in this code) -/
 theorem attempts_doh (o : Oracle) : (dohOnce o).n = 1 := by
   simp only [dohOnce]; split <;> (try split) <;> rfl
@@ -58,10 +85,10 @@ theorem attempts_pos (k : Kind) (o : Oracle) : 0 < (exchange k o).n := by
   · rw [exchange_eq_loop k hk]; exact loop_n_gt _ _ _
 
 /-- the bounds are attained: a pool that keeps handing out stale connections -/
-example : (exchange .pipeline (fun _ => ⟨.pooled, none, false, none, false⟩)).n = 6 := by simp [exchange, pipelineLoop]
-example : (exchange .reuse (fun _ => ⟨.pooled, none, false, none, false⟩)).n = 7 := by
+example : (exchange .pipeline (fun _ => ⟨.pooled, none, false, none, false, false⟩)).n = 6 := by simp [exchange, pipelineLoop]
+example : (exchange .reuse (fun _ => ⟨.pooled, none, false, none, false, false⟩)).n = 7 := by
   simp [exchange, reuseLoop, forcedDial]
-example : (exchange .quic (fun _ => ⟨.pooled, none, false, none, false⟩)).n = 6 := by simp [exchange, quicLoop]
+example : (exchange .quic (fun _ => ⟨.pooled, none, false, none, false, false⟩)).n = 6 := by simp [exchange, quicLoop]
 
 /-! ### ★ what is retried -/
 
@@ -146,13 +173,48 @@ theorem stale_then_healthy_succeeds (k : Kind) (hk : k ≠ .doh) (o : Oracle) (m
 theorem stale_then_healthy_succeeds_pool (k : Kind) (hk : k ≠ .doh) (o : Oracle) (m x : Nat)
     (hm : m ≤ 5)
     (hs : ∀ i, i < m → (o i).get = .pooled ∧ (o i).res = none ∧ (o i).ctxDone = false)
+    (hq : k = .quic → ∀ i, i < m → (o i).connErr = false)
     (hg : (o m).get = .pooled ∨ (o m).get = .fresh) (hx : (o m).res = some x) :
     exchange k o = ⟨some x, m + 1⟩ := by
+  have he : ∀ i, i ≤ m → eff k o i = o i := fun i hi =>
+    eff_plain k o i (by omega) (fun hkq j hj => hq hkq j (by omega))
   apply stale_then_healthy_succeeds k hk o m x
   · cases k <;> simp [Kind.lim] at hk ⊢ <;> omega
-  · intro i hi; rw [eff_early k o i (by omega)]; exact hs i hi
-  · rw [eff_early k o m hm]; exact hg
-  · rw [eff_early k o m hm]; exact hx
+  · intro i hi; rw [he i (by omega)]; exact hs i hi
+  · rw [he m (Nat.le_refl _)]; exact hg
+  · rw [he m (Nat.le_refl _)]; exact hx
+
+/-- ★ (QUIC, D34) after `j ≤ 4` plain stale attempts a pooled attempt fails with a connection-level
+    error — the connection is dying, possibly with its context not done yet — while the caller's
+    context is live: the connection is forgotten, the NEXT attempt is a dial (not the same
+    connection again), and if that reaches a healthy server the exchange returns its reply -/
+theorem quic_dying_conn_redials (o : Oracle) (j x : Nat) (hj : j ≤ 4)
+    (hs : ∀ i, i < j → isStale (o i) = true ∧ (o i).connErr = false)
+    (hk : isStale (o j) = true) (hc : (o j).connErr = true)
+    (hd : (o (j + 1)).forced = some (some x)) :
+    exchange .quic o = ⟨some x, j + 2⟩ := by
+  have he : ∀ i, i ≤ j → eff .quic o i = o i := fun i hi =>
+    eff_quic_plain o i (fun t ht => (hs t (by omega)).2)
+  rw [exchange_eq_loop .quic (by decide)]
+  have h1 := loop_skip_stale Kind.quic.lim (eff .quic o) 0 (j + 1) (by simp [Kind.lim]; omega)
+    (fun i _ hi => by
+      rw [he i (by omega)]
+      by_cases hij : i = j
+      · subst hij; exact hk
+      · exact (hs i (by omega)).1)
+  rw [h1, Nat.zero_add]
+  have h2 : eff .quic o (j + 1) = forcedDial (o (j + 1)) := by
+    rw [eff_quic, he j (Nat.le_refl _), hc]; rfl
+  apply loop_healthy
+  · rw [h2]; simp [forcedDial, hd, Get.isErr]
+  · rw [h2]; simp [forcedDial, hd]
+
+/-- without `forgetConn` the same oracle — the dying connection is handed out again and again —
+    exhausts the budget (this is the pipeline loop's behaviour on it) -/
+example : exchange .pipeline (fun _ => ⟨.pooled, none, false, some (some 7), false, true⟩) = ⟨none, 6⟩ := by
+  simp [exchange, pipelineLoop]
+example : exchange .quic (fun _ => ⟨.pooled, none, false, some (some 7), false, true⟩) = ⟨some 7, 2⟩ := by
+  simp [exchange, quicLoop, forcedDial]
 
 /-- ★ connection-reuse transports: HOWEVER MANY stale connections the pool holds — every attempt
     on a pooled connection may fail — if the context stays live and a dial reaches a healthy
@@ -170,7 +232,7 @@ theorem stale_pool_any_size_succeeds (o : Oracle)
   simp only [Nat.add_sub_cancel]
   by_cases h6 : j < 6
   · have hns := loop_final_not_stale Kind.reuse.lim (eff .reuse o) 0 j (Nat.zero_le _) h6 hj
-    have he : eff .reuse o j = o j := eff_early .reuse o j (by omega)
+    have he : eff .reuse o j = o j := eff_early .reuse (by decide) o j (by omega)
     rw [he] at hns ⊢
     rcases hp j with h | h
     · simp only [isHealthy, Bool.and_eq_true, Bool.not_eq_true'] at h
@@ -182,23 +244,23 @@ theorem stale_pool_any_size_succeeds (o : Oracle)
     simp [eff, reuseEff, forcedDial, hx, Get.isErr]
 
 /-- … and the pipelined / QUIC loops do not have that escape: 6 stale connections exhaust them -/
-example : exchange .pipeline (fun _ => ⟨.pooled, none, false, some (some 7), false⟩) = ⟨none, 6⟩ := by
+example : exchange .pipeline (fun _ => ⟨.pooled, none, false, some (some 7), false, false⟩) = ⟨none, 6⟩ := by
   simp [exchange, pipelineLoop]
 
 /-- non-vacuity: 5 stale pooled connections, then a fresh one that answers (pipeline);
     6 for the reuse transport; and one more stale connection exhausts the budget -/
-example : exchange .pipeline (oracleOf ((List.replicate 5 ⟨.pooled, none, false, none, false⟩) ++ [⟨.fresh, some 7, false, none, false⟩]))
+example : exchange .pipeline (oracleOf ((List.replicate 5 ⟨.pooled, none, false, none, false, false⟩) ++ [⟨.fresh, some 7, false, none, false, false⟩]))
     = ⟨some 7, 6⟩ := by simp [exchange, pipelineLoop, oracleOf, List.replicate]
-example : exchange .reuse (oracleOf ((List.replicate 5 ⟨.pooled, none, false, none, false⟩) ++ [⟨.pooled, some 7, false, none, false⟩]))
+example : exchange .reuse (oracleOf ((List.replicate 5 ⟨.pooled, none, false, none, false, false⟩) ++ [⟨.pooled, some 7, false, none, false, false⟩]))
     = ⟨some 7, 6⟩ := by simp [exchange, reuseLoop, oracleOf, List.replicate]
 /-- the reuse loop's 7th attempt dials whatever the pool holds -/
-example : exchange .reuse (fun _ => ⟨.pooled, none, false, some (some 7), false⟩) = ⟨some 7, 7⟩ := by
+example : exchange .reuse (fun _ => ⟨.pooled, none, false, some (some 7), false, false⟩) = ⟨some 7, 7⟩ := by
   simp [exchange, reuseLoop, forcedDial]
-example : exchange .pipeline (oracleOf ((List.replicate 6 ⟨.pooled, none, false, none, false⟩) ++ [⟨.fresh, some 7, false, none, false⟩]))
+example : exchange .pipeline (oracleOf ((List.replicate 6 ⟨.pooled, none, false, none, false, false⟩) ++ [⟨.fresh, some 7, false, none, false, false⟩]))
     = ⟨none, 6⟩ := by simp [exchange, pipelineLoop, oracleOf, List.replicate]
-example : exchange .pipeline (oracleOf [⟨.fresh, none, false, none, false⟩, ⟨.fresh, some 7, false, none, false⟩]) = ⟨none, 1⟩ := by
+example : exchange .pipeline (oracleOf [⟨.fresh, none, false, none, false, false⟩, ⟨.fresh, some 7, false, none, false, false⟩]) = ⟨none, 1⟩ := by
   simp [exchange, pipelineLoop, oracleOf]
-example : exchange .reuse (oracleOf [⟨.pooled, none, true, none, false⟩, ⟨.fresh, some 7, false, none, false⟩]) = ⟨none, 1⟩ := by
+example : exchange .reuse (oracleOf [⟨.pooled, none, true, none, false, false⟩, ⟨.fresh, some 7, false, none, false, false⟩]) = ⟨none, 1⟩ := by
   simp [exchange, reuseLoop, oracleOf]
 
 /-- at most one dial per exchange: only the last attempt can be on a fresh connection -/
@@ -294,6 +356,62 @@ theorem waiters_all_woken (fresh : List Bool) (nextOk : Bool) : (waitersOutcome 
 theorem waiter_outcome (f nextOk : Bool) :
     (exchange .pipeline (waiterOracle f nextOk)).res.isSome = (!f && nextOk) := by
   cases f <;> cases nextOk <;> simp [exchange, pipelineLoop, waiterOracle]
+
+/-! ### ★ the write deadline in force belongs to the exchange that is writing -/
+
+/-- ★ whatever the number of exchanges and their interleaving: while exchange `x` is inside
+    `c.c.Write` (possibly blocked — the peer does not read), the write deadline in force on the
+    socket is the deadline of `x`'s OWN context. An exchange that merely waits for the write lock,
+    with a later deadline or with none, cannot extend it: `SetWriteDeadline` is called under the
+    lock only. -/
+theorem write_deadline_is_writers_own (ddl : Nat → Option Nat) (ops : List WOp) (x : Nat)
+    (h : (wrun ddl winit ops).pc x = .writing) : (wrun ddl winit ops).sockDdl = ddl x :=
+  (wrun_inv ddl winit ops (winit_inv ddl)).2 x h
+
+/-- at most one exchange is inside `Write` -/
+theorem one_writer_at_a_time (ddl : Nat → Option Nat) (ops : List WOp) (x y : Nat)
+    (hx : (wrun ddl winit ops).pc x = .writing) (hy : (wrun ddl winit ops).pc y = .writing) : x = y := by
+  have h := (wrun_inv ddl winit ops (winit_inv ddl)).1
+  have h1 := h x (Or.inr hx)
+  have h2 := h y (Or.inr hy)
+  rw [h1] at h2
+  exact Option.some.inj h2
+
+/-- the statement is not vacuous, and the ordering matters: exchange 0 (deadline 400) is inside Write,
+    exchange 1 (deadline 3000) enters `writeTCP`. As written the socket keeps 400; with the deadline
+    set BEFORE the lock is taken it becomes 3000 (and `none` — no deadline at all — if exchange 1
+    has none) -/
+example : let s := wrun (fun x => if x = 0 then some 400 else some 3000) winit [.step 0, .step 0, .step 0, .step 1, .step 1]
+    s.pc 0 = .writing ∧ s.pc 1 = .waiting ∧ s.sockDdl = some 400 := by decide
+example : let s := wrunEarly (fun x => if x = 0 then some 400 else some 3000) winit [.step 0, .step 0, .step 1]
+    s.pc 0 = .writing ∧ s.pc 1 = .waiting ∧ s.sockDdl = some 3000 := by decide
+example : let s := wrunEarly (fun x => if x = 0 then some 400 else none) winit [.step 0, .step 0, .step 1]
+    s.pc 0 = .writing ∧ s.sockDdl = none := by decide
+
+set_option maxRecDepth 8000 in
+/-- tie: in `writeTCP` the lock-acquisition `select` precedes `SetWriteDeadline`, which precedes
+    `Write`; the lock is released by the deferred receive; no other function of the pipelined
+    connection touches the write deadline; the lock is a 1-buffered channel -/
+theorem pins_write_order :
+    Facts.c14_writeTCPBody = "{ select { case c.wm <- struct{}{}: case <-ctx.Done(): return context.Cause(ctx) case <-c.ctx.Done(): return context.Cause(c.ctx) } defer func() { <-c.wm }() ddl, _ := ctx.Deadline() c.c.SetWriteDeadline(ddl) _, err := c.c.Write(b) if err != nil { c.closeWithErr(fmt.Errorf(\"write err, %w\", err)) } return err }" ∧
+    Facts.c14_nWriteDdl_writeTCP = 1 ∧ Facts.c14_nWriteDdl_write = 0 ∧ Facts.c14_nWriteDdl_exchange = 0 ∧
+    Facts.c14_nWriteDdl_readLoop = 0 ∧ Facts.c14_nSetDeadline_readLoop = 0 ∧
+    Facts.c14_wmMake = "pc := &pipelineConn{ c: c, t: t, ctx: ctx, cancelCause: cancel, wm: make(chan struct{}, 1), queue: make(map[uint32]chan *dnsmsg.Msg), }" ∧
+    -- an idle time-out of the read loop is reported as the plain `ErrIdleTimeOut` (no Timeout() method):
+    -- to the retry loop it is a connection failure like any other
+    Facts.c14_idleErrCond = "errors.Is(err, os.ErrDeadlineExceeded)" ∧ Facts.c14_idleErrMap = "err = ErrIdleTimeOut" := by
+  decide
+
+set_option maxRecDepth 8000 in
+/-- tie (D34, fixed 69d4cbf): in `exchangePayload` a connection-level error makes the transport forget
+    the connection BEFORE the retry decision; `forgetConn` clears `t.c`; `getConn` otherwise trusts
+    the connection's context -/
+theorem pins_quic_forget :
+    Facts.c14_quicPayloadBody = "{ retry := 0 for { c, newConn, err := t.getConn(ctx) if err != nil { return nil, err } b, err := t.exchangeConn(ctx, payload, c) if err != nil { if isQuicConnErr(err) { t.forgetConn(c) } if !newConn && retry < 5 && !ctxIsDone(ctx) { retry++ continue } } return b, err } }" ∧
+    Facts.c14_quicForgetBody = "{ t.m.Lock() if t.c == c { t.c = nil } t.m.Unlock() }" ∧
+    Facts.c14_quicIsConnErrBody = "{ var ( appErr *quic.ApplicationError transErr *quic.TransportError idleErr *quic.IdleTimeoutError resetErr *quic.StatelessResetError hsErr *quic.HandshakeTimeoutError versionErr *quic.VersionNegotiationError ) return errors.As(err, &appErr) || errors.As(err, &transErr) || errors.As(err, &idleErr) || errors.As(err, &resetErr) || errors.As(err, &hsErr) || errors.As(err, &versionErr) }" ∧
+    Facts.c14_quicGetConnAlive = "!ctxIsDone(t.c.Context())" := by
+  decide
 
 /-! ### ★ every wait has a context arm: the complete table of `select`s on the exchange paths -/
 
@@ -393,7 +511,13 @@ theorem forcedDial_ctxDone (a : Attempt) : (forcedDial a).ctxDone = a.forcedDone
 
 theorem eff_ctxDone (k : Kind) (o : Oracle) (i : Nat) (h1 : (o i).ctxDone = false) (h2 : (o i).forcedDone = false) :
     (eff k o i).ctxDone = false := by
-  cases k <;> simp only [eff, reuseEff] <;> (try split) <;> simp [forcedDial_ctxDone, h1, h2]
+  cases k
+  · simp [eff, h1]
+  · simp only [eff, reuseEff]; split <;> simp [forcedDial_ctxDone, h1, h2]
+  · cases i with
+    | zero => simpa [eff, quicEff] using h1
+    | succ n => simp only [eff, quicEff]; split <;> simp [forcedDial_ctxDone, h1, h2]
+  · simp [eff, h1]
 
 theorem stalePool_getD (l : List Attempt) (h : stalePoolHealthyServer l = true) (i : Nat) :
     (isHealthy (l.getD i defaultAttempt) = true ∨ isStale (l.getD i defaultAttempt) = true) ∧
@@ -415,7 +539,9 @@ theorem stalePool_getD (l : List Attempt) (h : stalePoolHealthyServer l = true) 
 /-- `j ≤ 5` stale pooled attempts, then a fresh connection that fails: the exchange fails after
     exactly `j + 1` attempts -/
 theorem stale_then_fresh_failure (k : Kind) (o : Oracle) (j : Nat) (hj : j ≤ k.poolLim)
-    (hs : ∀ i, i < j → isStale (o i) = true) (hf : (o j).get = .fresh) (hr : (o j).res = none) :
+    (hs : ∀ i, i < j → isStale (o i) = true)
+    (hq : k = .quic → ∀ i, i < j → (o i).connErr = false)
+    (hf : (o j).get = .fresh) (hr : (o j).res = none) :
     exchange k o = ⟨none, j + 1⟩ := by
   by_cases hk : k = .doh
   · subst hk
@@ -426,11 +552,47 @@ theorem stale_then_fresh_failure (k : Kind) (o : Oracle) (j : Nat) (hj : j ≤ k
   · have hj5 : j ≤ 5 := by cases k <;> simp [Kind.poolLim] at hj hk ⊢ <;> omega
     have hlim : j ≤ k.lim := by cases k <;> simp [Kind.lim] at hk ⊢ <;> omega
     rw [exchange_eq_loop k hk]
+    have he : ∀ i, i ≤ j → eff k o i = o i := fun i hi =>
+      eff_plain k o i (by omega) (fun hkq t ht => hq hkq t (by omega))
     have h1 := loop_skip_stale k.lim (eff k o) 0 j (by omega)
-      (fun i _ hi => by rw [eff_early k o i (by omega)]; exact hs i (by omega))
+      (fun i _ hi => by rw [he i (by omega)]; exact hs i (by omega))
     rw [h1, Nat.zero_add, loop]
-    rw [eff_early k o j hj5]
+    rw [he j (Nat.le_refl _)]
     simp [hf, hr]
+
+/-- what holds of every element of `l.takeWhile p` holds of the first elements of `l` -/
+theorem takeWhile_all_getD (p q : Attempt → Bool) (l : List Attempt) (h : (l.takeWhile p).all q = true)
+    (i : Nat) (hi : i < (l.takeWhile p).length) : q (l.getD i defaultAttempt) = true := by
+  induction l generalizing i with
+  | nil => simp at hi
+  | cons a t ih =>
+    by_cases ha : p a = true
+    · simp only [List.takeWhile_cons, ha, if_true, List.length_cons, List.all_cons, Bool.and_eq_true] at hi h
+      cases i with
+      | zero => simpa [List.getD] using h.1
+      | succ j => simpa [List.getD] using ih h.2 j (by omega)
+    · simp [ha] at hi
+
+theorem takeWhile_all_self (p : Attempt → Bool) (l : List Attempt) : (l.takeWhile p).all p = true := by
+  induction l with
+  | nil => rfl
+  | cons a t ih =>
+    by_cases ha : p a = true
+    · simp [ha, ih]
+    · simp [ha]
+
+theorem takeWhile_self_getD (p : Attempt → Bool) (l : List Attempt) (i : Nat) (hi : i < (l.takeWhile p).length) :
+    p (l.getD i defaultAttempt) = true :=
+  takeWhile_all_getD p p l (takeWhile_all_self p l) i hi
+
+theorem plainPrefix_connErr (k : Kind) (l : List Attempt) (h : plainPrefix k l = true) (hk : k = .quic)
+    (i : Nat) (hi : i < (l.takeWhile isStale).length) : (oracleOf l i).connErr = false := by
+  subst hk
+  have h' : ((l.takeWhile isStale).all fun a => !a.connErr) = true := by
+    simpa [plainPrefix, List.any_eq_true, List.all_eq_true] using h
+  have := takeWhile_all_getD isStale (fun a => !a.connErr) l h' i hi
+  simp only [Bool.not_eq_true'] at this
+  exact this
 
 /-- ★ for every loop, every fault script and every choice of observables, the outcome the
     model predicts satisfies the executable specification written from the property text
@@ -439,11 +601,14 @@ theorem model_meets_spec (k : Kind) (l : List Attempt) (obs : String) :
     spec k l (predict k (oracleOf l) obs) = true := by
   have hA : (predict k (oracleOf l) obs).t ≠ "late" := by
     simp only [predict]; split <;> decide
-  have hB : k ≠ .doh → staleThenHealthy k.poolLim l = true → (predict k (oracleOf l) obs).ok = true := by
-    intro hk hs
+  have hB : k ≠ .doh → plainPrefix k l = true → staleThenHealthy k.poolLim l = true →
+      (predict k (oracleOf l) obs).ok = true := by
+    intro hk hpp hs
     simp only [staleThenHealthy, Bool.and_eq_true, decide_eq_true_eq] at hs
     obtain ⟨hm, hh⟩ := hs
-    generalize hmm : (l.takeWhile isStale).length = m at hm hh
+    have hq : k = .quic → ∀ i, i < (l.takeWhile isStale).length → (oracleOf l i).connErr = false :=
+      fun hkq i hi => plainPrefix_connErr k l hpp hkq i hi
+    generalize hmm : (l.takeWhile isStale).length = m at hm hh hq
     have hm5 : m ≤ 5 := by cases k <;> simp [Kind.poolLim] at hm hk ⊢ <;> omega
     have hst : ∀ i, i < m → (oracleOf l i).get = .pooled ∧ (oracleOf l i).res = none ∧ (oracleOf l i).ctxDone = false :=
       fun i hi => (isStale_iff _).1 (takeWhile_stale l i (by omega))
@@ -453,12 +618,12 @@ theorem model_meets_spec (k : Kind) (l : List Attempt) (obs : String) :
       | none => simp [isHealthy, hr] at hh'
       | some x => exact ⟨x, rfl⟩
     have hg : (oracleOf l m).get = .pooled ∨ (oracleOf l m).get = .fresh := by
-      cases hq : (oracleOf l m).get <;> simp [isHealthy, Get.isErr, hq] at hh' ⊢
-    have := stale_then_healthy_succeeds_pool k hk (oracleOf l) m x hm5 hst hg hx
+      cases hq' : (oracleOf l m).get <;> simp [isHealthy, Get.isErr, hq'] at hh' ⊢
+    have := stale_then_healthy_succeeds_pool k hk (oracleOf l) m x hm5 hst hq hg hx
     simp [predict, this]
-  have hB0 : ∀ j, freshFailureAt k.poolLim l = some j →
+  have hB0 : ∀ j, plainPrefix k l = true → freshFailureAt k.poolLim l = some j →
       (predict k (oracleOf l) obs).ok = false ∧ ∀ a, (predict k (oracleOf l) obs).att = some a → a ≤ j + 1 := by
-    intro j hj
+    intro j hpp hj
     simp only [freshFailureAt] at hj
     split at hj
     · rename_i hc
@@ -466,7 +631,9 @@ theorem model_meets_spec (k : Kind) (l : List Attempt) (obs : String) :
       simp only [Bool.and_eq_true, decide_eq_true_eq, beq_iff_eq] at hc
       obtain ⟨⟨hle, hfresh⟩, hnone⟩ := hc
       have hex := stale_then_fresh_failure k (oracleOf l) _ hle
-        (fun i hi => takeWhile_stale l i hi) hfresh (Option.isNone_iff_eq_none.1 hnone)
+        (fun i hi => takeWhile_stale l i hi)
+        (fun hkq i hi => plainPrefix_connErr k l hpp hkq i hi)
+        hfresh (Option.isNone_iff_eq_none.1 hnone)
       refine ⟨by simp [predict, hex], ?_⟩
       intro a ha
       simp only [predict] at ha
@@ -482,6 +649,26 @@ theorem model_meets_spec (k : Kind) (l : List Attempt) (obs : String) :
     have := stale_pool_any_size_succeeds (oracleOf l)
       (fun i => (stalePool_getD l hs i).1) (fun i => (stalePool_getD l hs i).2)
     simpa [predict] using this
+  have hB3 : k = .quic → quicKillThenDial l = true → (predict k (oracleOf l) obs).ok = true := by
+    intro hk hs
+    subst hk
+    simp only [quicKillThenDial, Bool.and_eq_true, decide_eq_true_eq] at hs
+    obtain ⟨⟨⟨hj, hst⟩, hce⟩, hd⟩ := hs
+    have hpre : ∀ i, i < (l.takeWhile fun a => isStale a && !a.connErr).length →
+        isStale (oracleOf l i) = true ∧ (oracleOf l i).connErr = false := by
+      intro i hi
+      have := takeWhile_self_getD (fun a => isStale a && !a.connErr) l i hi
+      simp only [Bool.and_eq_true, Bool.not_eq_true'] at this
+      exact this
+    obtain ⟨x, hx⟩ : ∃ x, (oracleOf l ((l.takeWhile fun a => isStale a && !a.connErr).length + 1)).forced = some (some x) := by
+      cases hf : (oracleOf l ((l.takeWhile fun a => isStale a && !a.connErr).length + 1)).forced with
+      | none => simp [oracleOf] at hf; simp [hf] at hd
+      | some r =>
+        cases r with
+        | none => simp [oracleOf] at hf; simp [hf] at hd
+        | some x => exact ⟨x, rfl⟩
+    have := quic_dying_conn_redials (oracleOf l) _ x hj hpre hst hce hx
+    simp [predict, this]
   have hC : ∀ a, (predict k (oracleOf l) obs).att = some a → a ≤ k.lim + 1 := by
     intro a ha
     simp only [predict] at ha
@@ -503,21 +690,29 @@ theorem model_meets_spec (k : Kind) (l : List Attempt) (obs : String) :
     simp
   have hF : (predict k (oracleOf l) obs).woke = true ∧ (predict k (oracleOf l) obs).leak = 0 := ⟨rfl, rfl⟩
   simp only [spec, Bool.and_eq_true]
-  refine ⟨⟨⟨⟨⟨⟨⟨⟨?_, ?_⟩, ?_⟩, ?_⟩, ?_⟩, ?_⟩, ?_⟩, hF.1⟩, by simp [hF.2]⟩
+  refine ⟨⟨⟨⟨⟨⟨⟨⟨⟨?_, ?_⟩, ?_⟩, ?_⟩, ?_⟩, ?_⟩, ?_⟩, ?_⟩, hF.1⟩, by simp [hF.2]⟩
   · simpa using hA
-  · cases hq : freshFailureAt k.poolLim l with
-    | none => rfl
-    | some j =>
-      have := hB0 j hq
-      simp only [Bool.and_eq_true, Bool.not_eq_true']
-      refine ⟨this.1, ?_⟩
-      cases ha : (predict k (oracleOf l) obs).att with
+  · by_cases hpp : plainPrefix k l = true
+    · simp only [hpp, if_true]
+      cases hq : freshFailureAt k.poolLim l with
       | none => rfl
-      | some a => simpa using this.2 a ha
+      | some j =>
+        have := hB0 j hpp hq
+        simp only [Bool.and_eq_true, Bool.not_eq_true']
+        refine ⟨this.1, ?_⟩
+        cases ha : (predict k (oracleOf l) obs).att with
+        | none => rfl
+        | some a => simpa using this.2 a ha
+    · simp [hpp]
   · split
     · rename_i h
       simp only [bne_iff_ne, ne_eq] at h
-      exact hB h.1 h.2
+      exact hB h.1.1 h.1.2 h.2
+    · rfl
+  · split
+    · rename_i h
+      simp only [beq_iff_eq] at h
+      exact hB3 h.1 h.2
     · rfl
   · split
     · rename_i h
@@ -537,18 +732,22 @@ theorem model_meets_spec (k : Kind) (l : List Attempt) (obs : String) :
 /-- the specification is not vacuous: it rejects a late return, a stale connection that was
     not survived, a second dial, an unbounded number of attempts, waiting out the deadline
     after a connection died, sleeping waiters and a leaked connection -/
-example : spec .pipeline [⟨.fresh, none, true, none, false⟩] ⟨false, some 1, some 1, "late", true, 0⟩ = false := by decide
-example : spec .reuse (List.replicate 9 ⟨.pooled, none, false, healthyDial, false⟩) ⟨false, some 7, some 0, "prompt", true, 0⟩ = false := by decide
-example : spec .reuse (List.replicate 9 ⟨.pooled, none, false, healthyDial, false⟩) ⟨true, some 7, some 1, "prompt", true, 0⟩ = true := by decide
-example : spec .reuse [⟨.pooled, none, false, none, false⟩, ⟨.fresh, some 1, false, healthyDial, false⟩] ⟨false, some 1, some 0, "prompt", true, 0⟩ = false := by decide
-example : spec .reuse [⟨.pooled, none, false, none, false⟩, ⟨.fresh, some 1, false, healthyDial, false⟩] ⟨true, some 2, some 1, "prompt", true, 0⟩ = true := by decide
-example : spec .pipeline [⟨.fresh, none, false, none, false⟩] ⟨false, some 2, some 2, "prompt", true, 0⟩ = false := by decide
-example : spec .quic [⟨.fresh, none, false, none, false⟩] ⟨true, some 2, some 1, "prompt", true, 0⟩ = false := by decide
-example : spec .quic [⟨.fresh, none, false, none, false⟩] ⟨false, some 1, some 1, "prompt", true, 0⟩ = true := by decide
-example : spec .pipeline [⟨.pooled, none, false, none, false⟩] ⟨false, some 8, some 0, "prompt", true, 0⟩ = false := by decide
-example : spec .pipeline [⟨.fresh, none, false, none, false⟩] ⟨false, some 1, some 1, "intime", true, 0⟩ = false := by decide
-example : spec .pipeline [⟨.fresh, none, false, none, false⟩] ⟨false, some 1, some 1, "prompt", false, 0⟩ = false := by decide
-example : spec .pipeline [⟨.fresh, none, false, none, false⟩] ⟨false, some 1, some 1, "prompt", true, 1⟩ = false := by decide
+example : spec .pipeline [⟨.fresh, none, true, none, false, false⟩] ⟨false, some 1, some 1, "late", true, 0⟩ = false := by decide
+example : spec .reuse (List.replicate 9 ⟨.pooled, none, false, healthyDial, false, false⟩) ⟨false, some 7, some 0, "prompt", true, 0⟩ = false := by decide
+example : spec .reuse (List.replicate 9 ⟨.pooled, none, false, healthyDial, false, false⟩) ⟨true, some 7, some 1, "prompt", true, 0⟩ = true := by decide
+example : spec .reuse [⟨.pooled, none, false, none, false, false⟩, ⟨.fresh, some 1, false, healthyDial, false, false⟩] ⟨false, some 1, some 0, "prompt", true, 0⟩ = false := by decide
+example : spec .reuse [⟨.pooled, none, false, none, false, false⟩, ⟨.fresh, some 1, false, healthyDial, false, false⟩] ⟨true, some 2, some 1, "prompt", true, 0⟩ = true := by decide
+example : spec .pipeline [⟨.fresh, none, false, none, false, false⟩] ⟨false, some 2, some 2, "prompt", true, 0⟩ = false := by decide
+example : spec .quic [⟨.fresh, none, false, none, false, false⟩] ⟨true, some 2, some 1, "prompt", true, 0⟩ = false := by decide
+example : spec .quic [⟨.pooled, none, false, healthyDial, false, true⟩, ⟨.fresh, some 1, false, healthyDial, false, false⟩]
+    ⟨false, none, some 0, "prompt", true, 0⟩ = false := by decide
+example : spec .quic [⟨.pooled, none, false, healthyDial, false, true⟩, ⟨.fresh, some 1, false, healthyDial, false, false⟩]
+    ⟨true, none, some 1, "prompt", true, 0⟩ = true := by decide
+example : spec .quic [⟨.fresh, none, false, none, false, false⟩] ⟨false, some 1, some 1, "prompt", true, 0⟩ = true := by decide
+example : spec .pipeline [⟨.pooled, none, false, none, false, false⟩] ⟨false, some 8, some 0, "prompt", true, 0⟩ = false := by decide
+example : spec .pipeline [⟨.fresh, none, false, none, false, false⟩] ⟨false, some 1, some 1, "intime", true, 0⟩ = false := by decide
+example : spec .pipeline [⟨.fresh, none, false, none, false, false⟩] ⟨false, some 1, some 1, "prompt", false, 0⟩ = false := by decide
+example : spec .pipeline [⟨.fresh, none, false, none, false, false⟩] ⟨false, some 1, some 1, "prompt", true, 1⟩ = false := by decide
 
 /-! ### tie: pinned source facts -/
 
